@@ -81,6 +81,7 @@ fn main() {
             // one fifth of the ops per tracking flavour
             use vm_memory::bitmap::{ArcSlice, AtomicBitmap, RefSlice};
             let k = n / 6 + 1;
+            slice::third_party_probe(&mut rec);
             slice::run::<RefSlice<'static, AtomicBitmap>>(&mut rec, &mut rng, 2 * k, streams);
             slice::run::<slice::ProbeSlice>(&mut rec, &mut rng, k, streams);
             slice::run::<ArcSlice<AtomicBitmap>>(&mut rec, &mut rng, k, streams);
